@@ -105,6 +105,39 @@ func c19(c *Check) {
 	}
 	c.Trusted = []string{"go-ethereum accounts/abi: Pack maps component name via ToCamelCase to the Go field; Unpack yields an anonymous struct whose JSON key is the component name", "encoding/json field matching: tag name, else field name, case-insensitive", "go/types struct tags"}
 
+	c.Rule("C19/iteration-keys-read-back-whole", "the consensus-state iterators of the three light clients hand their callback the height parsed from the iterated key itself, and that parser reads both big-endian words (revision number and revision height) the key was written with", 6)
+	for _, cl := range []string{"eth", "bsc", "tendermint"} {
+		pk := "x/xibc/clients/light-clients/" + cl + "/types."
+		it := c.F(pk + "IterateConsensusStateAscending")
+		parse := cl + "/types.GetHeightFromIterationKey("
+		nd := 0
+		for _, cs := range c.P.CallsIn(it) {
+			if !strings.HasPrefix(cs.Name, "dyn:$") {
+				continue
+			}
+			nd++
+			a := c.P.ArgExprs(cs)
+			ok := len(a) >= 1 && strings.HasPrefix(a[0].String(), parse+"iface:cosmos-sdk/types.Iterator.Key(")
+			got := ""
+			if len(a) >= 1 {
+				got = a[0].String()
+			}
+			c.Req(ok, "C19/iteration-keys-read-back-whole", funcName(it)+"/callback height", cs.Ins.Pos(), "height parsed from the iterated key", "the callback receives "+trunc(got)+" as height, not the height parsed from the iterated key: a stored key is read back as a height it was not written for")
+		}
+		c.Req(nd > 0, "C19/iteration-keys-read-back-whole", funcName(it)+"/callback site", it.Pos(), "", "no call of the callback parameter found in "+funcName(it))
+		word := func(lo string) []string {
+			if cl == "tendermint" {
+				return []string{"encoding/binary.(bigEndian).Uint64(g:encoding/binary.BigEndian, $0[len(g:tendermint/types.KeyIterateConsensusStatePrefix):][" + lo + "])"}
+			}
+			return []string{"cosmos-sdk/types.BigEndianToUint64($0[len(\"consensusStates/\"):][" + lo + "])"}
+		}
+		var wants []string
+		for _, lo := range [][2]string{{"0:8", "8:"}, {":8", "8:"}, {"0:8", "8:16"}, {":8", "8:16"}} {
+			wants = append(wants, "client/types.Height{RevisionNumber: "+word(lo[0])[0]+", RevisionHeight: "+word(lo[1])[0]+"}")
+		}
+		c.Spec("C19/iteration-keys-read-back-whole", Macros{}, FnSpec{Fn: pk + "GetHeightFromIterationKey",
+			Returns: []Ret{{Label: "both words of the key", Index: 0, Want: wants}}})
+	}
 	c.Rule("C19/abi-tuple-struct", "for every (struct, ABI tuple) pair used by ABIPack/ABIDecode: each component packs from a Go field of the corresponding type (ToCamelCase(name)), decodes into a field whose JSON key equals the component name (exact or case-insensitive), and every field of the struct is covered by a component", 40)
 	pkg := c.P.Pkg("x/xibc/core/packet/types")
 	nPairs := abiTupleRule(c, "C19/abi-tuple-struct", "Packet", "Acknowledgement", "Result", "EventSendPacket", "TransferData", "CallData")
